@@ -106,7 +106,7 @@ def main(ctx):
     # R ---------------------------------------------------------------------------------------
     res = ctx.path("res.ndjson")
     rev = ctx.path("revents.ndjson")
-    evrate = 12 if thorough else 6
+    evrate = 20 if thorough else 6
     ctx.harness(["replay", "C10", "--cases", cases, "--out", res, "--opt", "events=" + rev, "--opt", "evrate=%d" % evrate],
                 timeout=3000)
     summ = ctx.add_results(res)
